@@ -30,6 +30,8 @@ POLICIES = {
     "ok": dict(),
     "large08": dict(large_fo="refuse08"),
     "large0109": dict(large_fo="refuse0109"),
+    "large08bare": dict(large_fo="refuse08bare"),
+    "large0109bare": dict(large_fo="refuse0109bare"),
     "nofo": dict(large_fo="refuse08", std_fo="refuse"),
     "nosession": dict(session="refuse"),
     "nosession_h": dict(session="refuse-with-handle"),
@@ -43,10 +45,10 @@ POLICIES = {
 }
 FAULT_KINDS = ("send_err", "send_partial", "recv_err", "recv_close", "recv_trunc")
 EVENTS = {
-    "cip": ("open", "close", "gen_c", "gen_u", "with_ok", "with_raise"),
-    "logix_noinit": ("open", "close", "read", "write", "gen_c", "gen_u", "with_ok", "with_raise"),
-    "logix_upload": ("open", "close", "read", "write", "gen_c", "with_ok", "with_raise"),
-    "slc": ("open", "close", "read", "write", "gen_c", "with_ok", "with_raise"),
+    "cip": ("open", "close", "gen_c", "gen_u", "with_ok", "with_raise", "with_comm"),
+    "logix_noinit": ("open", "close", "read", "write", "gen_c", "gen_u", "with_ok", "with_raise", "with_comm"),
+    "logix_upload": ("open", "close", "read", "write", "gen_c", "with_ok", "with_raise", "with_comm"),
+    "slc": ("open", "close", "read", "write", "gen_c", "with_ok", "with_raise", "with_comm"),
 }
 
 
@@ -136,6 +138,19 @@ class Run:
             out = call(f)
             if out[:2] == ("foreign", "ValueError"):
                 out = ("ok", "user-exception-propagated")
+        elif ev == "with_comm":
+            # the block does some connected work and is then left by a CommError that does not come from this driver's link
+            # (user code, another driver): the target is still reachable, so the exit must close connection and session properly
+            from pycomm3.exceptions import CommError
+
+            def f():
+                with d:
+                    self.entered = True
+                    d.generic_message(service=1, class_code=1, instance=1)
+                    raise CommError("another device timed out")
+            out = call(f)
+            if out[:2] == ("pycomm", "CommError") and "another device" in str(out[2]):
+                out = ("ok", "user-exception-propagated")
         else:
             raise AssertionError(ev)
         w.disarm()
@@ -146,7 +161,7 @@ class Run:
             self.tcp_killed = True  # every injected fault leaves that TCP connection unusable (reset, broken pipe, peer gone)
         if fired and sum(1 for x in t.fo_log if x[2]) > fo_before:
             self.fo_reply_lost = True  # the target opened a connection during an event whose I/O failed: the client may not know it
-        if ev in ("close", "with_ok", "with_raise") or (ev == "open" and False):
+        if ev in ("close", "with_ok", "with_raise", "with_comm") or (ev == "open" and False):
             pass
         self.outcomes.append((ev, fault, out[0] if out[0] != "ok" else "ok"))
         # ---- invariants
@@ -178,7 +193,7 @@ class Run:
                     self.violations.append(("I2-standard-size", f"{tag}: standard Forward Open asks for {size} bytes, not 500"))
             first = False
         # I4: after close
-        if ev in ("close", "with_ok", "with_raise") and self.entered:
+        if ev in ("close", "with_ok", "with_raise", "with_comm") and self.entered:
             if d.connected:
                 self.violations.append(("I4-still-connected", f"{tag}: driver.connected is True after close"))
             reachable = not fired and not self.tcp_killed and self.polname not in ("notcp",)
